@@ -185,93 +185,214 @@ def _mutate(rng, d, keys, leaves):
     return d
 
 
-def _gen(ctx, n_exh_leaves, n_pair, n_multi, n_nested, n_bad):
-    rng = ctx.rng
-    cases = []
-    # --- exhaustive scopes ---------------------------------------------------------------------
-    f, t = rng.choice(FALSY), rng.choice(TRUTHY)
+CHANGED_VALUES = [True, False, None, 0, 1, "x", ""]      # hashable: `_update_with_group` puts them into a set
+
+
+def _with_changed(rng, c, p=0.5):
+    """maybe give the context an `output.changed` item (or a non-dictionary `output`)"""
+    r = rng.random()
+    if r < p:
+        out = c.get("output")
+        if not isinstance(out, dict):
+            out = c["output"] = {}
+        out["changed"] = rng.choice(CHANGED_VALUES)
+    elif r < p + 0.08:
+        c["output"] = rng.choice([0, "x", None])
+    return c
+
+
+def _family(rng, keys, depth, leaves, n, p_mut=0.75):
+    """n dictionaries, most of them neighbours of one base dictionary"""
+    base = _rand_dict(rng, keys, depth, leaves, p_absent=0.2)
+    return [(_mutate(rng, base, keys, leaves) if rng.random() < p_mut else _rand_dict(rng, keys, depth, leaves))
+            for _ in range(n)]
+
+
+def _interleave(streams):
+    """round robin over generators until all are exhausted (so that a prefix of the case stream is a mix)"""
+    streams = [iter(g) for g in streams]
+    while streams:
+        alive = []
+        for g in streams:
+            try:
+                yield next(g)
+                alive.append(g)
+            except StopIteration:
+                pass
+        streams = alive
+
+
+def _gen(ctx, n_exh_leaves, n_pair, n_multi, n_nested, n_bad, n_ext):
+    """lazy stream of cases; every stream has its own generator seeded from ctx.rng"""
+    top = ctx.rng
+    keys3 = ["a", "b", "c"]
+    f, t = top.choice(FALSY), top.choice(TRUTHY)
     leaves2 = [f, t]
     if n_exh_leaves >= 3:
-        leaves2.append(rng.choice([x for x in PALETTE if x != f and x != t]))
+        leaves2.append(top.choice([x for x in PALETTE if x != f and x != t]))
+    leaves3 = [top.choice(FALSY), top.choice(TRUTHY), top.choice(PALETTE)]
     u2 = _universe(["a", "b"], leaves2, 2)
-    deep_every = 4 if n_exh_leaves < 3 else 8
-    for i, a in enumerate(u2):
-        for j, b in enumerate(u2):
-            # ("paths": also compare the Lean path vocabulary untouchedL/getPath with the Python reference and the id()
-            # pattern of the results with the token model; on a quarter / an eighth of the exhaustive scope and on every
-            # sampled pair)
-            cases.append({"op": "pair", "a": a, "b": b, "levels": LEVELS, "paths": (i + j) % deep_every == 0})
-    leaves3 = [rng.choice(FALSY), rng.choice(TRUTHY), rng.choice(PALETTE)]
     u3 = _universe(["a", "b", "c"], leaves3, 1)
-    for a in u3:
-        for b in u3:
-            cases.append({"op": "pair", "a": a, "b": b, "levels": LEVELS})
     u1 = _universe(["a", "b"], [f, t], 1)
-    for a in u1:
-        for b in u1:
-            for c in u1:
-                for lv in LEVELS:
-                    cases.append({"op": "multi", "ds": [a, b, c], "level": lv})
-    # the calls with no and with one argument
-    for lv in LEVELS:
-        cases.append({"op": "multi", "ds": [], "level": lv})
-        for a in u1:
-            cases.append({"op": "multi", "ds": [a], "level": lv})
-    # --- sampled scopes ------------------------------------------------------------------------
-    keys3 = ["a", "b", "c"]
-    for _ in range(n_pair):
-        depth = rng.choice([1, 2, 3, 3])
-        leaves = PALETTE if rng.random() < 0.7 else rng.sample(PALETTE, 3)
-        a = _rand_dict(rng, keys3, depth, leaves)
-        b = _mutate(rng, a, keys3, leaves) if rng.random() < 0.6 else _rand_dict(rng, keys3, depth, leaves)
-        if rng.random() < 0.5:
-            a, b = b, a
-        cases.append({"op": "pair", "a": a, "b": b, "levels": LEVELS, "paths": True})
-    for _ in range(n_multi):
-        depth = rng.choice([1, 2, 2, 3])
-        leaves = PALETTE if rng.random() < 0.5 else rng.sample(PALETTE, 3)
-        keys = keys3 if rng.random() < 0.7 else ["a", "b"]
-        n = rng.choice([2, 3, 3, 3, 4])
-        base = _rand_dict(rng, keys, depth, leaves, p_absent=0.2)
-        ds = [(_mutate(rng, base, keys, leaves) if rng.random() < 0.75 else _rand_dict(rng, keys, depth, leaves))
-              for _ in range(n)]
-        cases.append({"op": "multi", "ds": ds, "level": rng.choice(LEVELS + [-1, -1, 4, -2])})
-    for _ in range(n_nested):
-        key = rng.choice(keys3)
-        leaves = PALETTE if rng.random() < 0.5 else rng.sample(PALETTE, 3)
-        d = _rand_dict(rng, keys3, rng.choice([1, 2]), leaves, p_absent=0.3)
-        # `other` with a chain key.key...key of random length, ending in an absent key (fine) or in a leaf (TypeError)
-        other = _rand_dict(rng, keys3, 2, leaves)
-        cur = other
-        for _ in range(rng.choice([0, 0, 1, 2, 3])):
-            nxt = _rand_dict(rng, keys3, 1, leaves)
-            cur[key] = nxt
-            cur = nxt
-        r = rng.random()
-        if r < 0.7:
-            cur.pop(key, None)
-        elif r < 0.85:
-            cur[key] = copy.deepcopy(rng.choice(leaves))
-        cases.append({"op": "nested", "key": key, "d": d, "other": other})
-    for _ in range(n_bad):
-        vals = [rng.choice(PALETTE) if rng.random() < 0.4 else _rand_dict(rng, ["a", "b"], 2, PALETTE)
-                for _ in range(rng.choice([1, 2, 2, 3]))]
-        cases.append({"op": "bad", "vals": copy.deepcopy(vals), "level": rng.choice(LEVELS)})
+    deep_every = 4 if n_exh_leaves < 3 else 8
+    seeds = [top.random() for _ in range(16)]
     ctx.exhaustive = False   # the sampled part is not an enumeration
     ctx.notes = [f"exhaustive pair scope: keys a,b depth<=2 leaves {leaves2!r} ({len(u2)}^2 pairs); keys a,b,c depth 1 leaves "
                  f"{leaves3!r} ({len(u3)}^2 pairs); all {len(u1)}^3 triples over a,b depth 1 x {len(LEVELS)} levels"]
-    return cases
+
+    def exh_pairs():
+        for i, a in enumerate(u2):
+            for j, b in enumerate(u2):
+                # ("paths": also compare the Lean path vocabulary untouchedL/getPath with the Python reference, the id()
+                # pattern of the results with the token model and the objects written by update_recursively with the write
+                # log; on a quarter / an eighth of the exhaustive scope and on every sampled pair)
+                yield {"op": "pair", "a": a, "b": b, "levels": LEVELS, "paths": (i + j) % deep_every == 0}
+
+    def exh_small():
+        for a in u3:
+            for b in u3:
+                yield {"op": "pair", "a": a, "b": b, "levels": LEVELS}
+        for a in u1:
+            for b in u1:
+                for c in u1:
+                    for lv in LEVELS:
+                        yield {"op": "multi", "ds": [a, b, c], "level": lv}
+        # the calls with no and with one argument
+        for lv in LEVELS:
+            yield {"op": "multi", "ds": [], "level": lv}
+            for a in u1:
+                yield {"op": "multi", "ds": [a], "level": lv}
+        # self-referential `other` of update_nested ("recursive dictionaries are strongly discouraged")
+        for length in (1, 2, 3):
+            yield {"op": "cyc", "key": "a", "d": {"a": 1, "b": 2}, "cycle": length}
+        yield {"op": "cyc", "key": "a", "d": {"b": 2}, "cycle": 1}
+
+    def pairs():
+        rng = __import__("random").Random(seeds[0])
+        for _ in range(n_pair):
+            depth = rng.choice([1, 2, 3, 3])
+            leaves = PALETTE if rng.random() < 0.7 else rng.sample(PALETTE, 3)
+            a = _rand_dict(rng, keys3, depth, leaves)
+            b = _mutate(rng, a, keys3, leaves) if rng.random() < 0.6 else _rand_dict(rng, keys3, depth, leaves)
+            if rng.random() < 0.5:
+                a, b = b, a
+            yield {"op": "pair", "a": a, "b": b, "levels": LEVELS, "paths": True}
+
+    def multis():
+        rng = __import__("random").Random(seeds[1])
+        for _ in range(n_multi):
+            depth = rng.choice([1, 2, 2, 3])
+            leaves = PALETTE if rng.random() < 0.5 else rng.sample(PALETTE, 3)
+            keys = keys3 if rng.random() < 0.7 else ["a", "b"]
+            ds = _family(rng, keys, depth, leaves, rng.choice([2, 3, 3, 3, 4]))
+            yield {"op": "multi", "ds": ds, "level": rng.choice(LEVELS + [-1, -1, 4, -2])}
+
+    def nesteds():
+        rng = __import__("random").Random(seeds[2])
+        for _ in range(n_nested):
+            key = rng.choice(keys3)
+            leaves = PALETTE if rng.random() < 0.5 else rng.sample(PALETTE, 3)
+            d = _rand_dict(rng, keys3, rng.choice([1, 2]), leaves, p_absent=0.3)
+            # `other` with a chain key.key...key of random length, ending in an absent key (fine) or in a leaf (TypeError)
+            other = _rand_dict(rng, keys3, 2, leaves)
+            cur = other
+            for _ in range(rng.choice([0, 0, 1, 2, 3])):
+                nxt = _rand_dict(rng, keys3, 1, leaves)
+                cur[key] = nxt
+                cur = nxt
+            r = rng.random()
+            if r < 0.7:
+                cur.pop(key, None)
+            elif r < 0.85:
+                cur[key] = copy.deepcopy(rng.choice(leaves))
+            yield {"op": "nested", "key": key, "d": d, "other": other}
+
+    def bads():
+        rng = __import__("random").Random(seeds[3])
+        for i in range(n_bad):
+            vals = [rng.choice(PALETTE) if rng.random() < 0.4 else _rand_dict(rng, ["a", "b"], 2, PALETTE)
+                    for _ in range(rng.choice([1, 2, 2, 3]))]
+            yield {"op": "bad", "vals": copy.deepcopy(vals), "level": rng.choice(LEVELS)}
+            if i % 4 == 0:
+                # keyword arguments of intersection: an unknown one, with and without `level`
+                ds = _family(rng, ["a", "b"], 2, PALETTE, rng.choice([0, 1, 2, 2]))
+                if rng.random() < 0.2:
+                    ds.append(rng.choice(PALETTE))
+                yield {"op": "kw", "ds": ds, "level": rng.choice([None] + LEVELS), "unknown": rng.random() < 0.7}
+
+    def ustrs():
+        """update_recursively(d, other[, value]) with a string / a dictionary / something else as `other`"""
+        rng = __import__("random").Random(seeds[4])
+        for _ in range(n_ext):
+            leaves = PALETTE if rng.random() < 0.5 else rng.sample(PALETTE, 3)
+            d = _rand_dict(rng, keys3, rng.choice([1, 2, 3]), leaves, p_absent=0.3)
+            if rng.random() < 0.05:
+                d = rng.choice(PALETTE)
+            r = rng.random()
+            if r < 0.75:
+                # a path of d (so that dictionaries and scalars are overwritten / merged), or a random one
+                paths = _paths(d) if isinstance(d, dict) else []
+                if paths and rng.random() < 0.6:
+                    parts = list(rng.choice(paths))
+                    if rng.random() < 0.4:
+                        parts.append(rng.choice(keys3))
+                else:
+                    parts = [rng.choice(keys3 + ["", "x"]) for _ in range(rng.choice([1, 1, 2, 2, 3, 4]))]
+                other = ".".join(parts) if rng.random() < 0.93 else ""
+            elif r < 0.9:
+                other = _rand_dict(rng, keys3, 2, leaves)
+            else:
+                other = rng.choice([0, None, [], 1, True, [1]])
+            case = {"op": "ustr", "d": d, "other": other}
+            if rng.random() < (0.7 if isinstance(other, str) else 0.3):
+                case["value"] = (_rand_dict(rng, keys3, rng.choice([1, 2]), leaves) if rng.random() < 0.3
+                                 else copy.deepcopy(rng.choice(leaves)))
+            yield case
+
+    def zips():
+        rng = __import__("random").Random(seeds[5])
+        for _ in range(n_ext):
+            leaves = PALETTE if rng.random() < 0.5 else rng.sample(PALETTE, 3)
+            keys = keys3 if rng.random() < 0.6 else ["a", "b", "zip"]
+            vals = _family(rng, keys, rng.choice([1, 2, 2]), leaves, rng.choice([1, 2, 2, 3, 4]), p_mut=0.85)
+            yield {"op": "zip", "values": vals, "fields": rng.random() < 0.3}
+
+    def groups():
+        rng = __import__("random").Random(seeds[6])
+        for i in range(n_ext):
+            leaves = PALETTE if rng.random() < 0.5 else rng.sample(PALETTE, 3)
+            ctxs = _family(rng, keys3, rng.choice([1, 2, 2, 3]), leaves, rng.choice([0, 1, 2, 2, 3, 4]), p_mut=0.85)
+            if i % 3 == 2:
+                # LenaSplit._get_context over branches whose static contexts are set by SetContext elements
+                yield {"op": "split", "ctxs": ctxs}
+            else:
+                yield {"op": "group", "ctxs": [_with_changed(rng, c, 0.35) for c in ctxs]}
+
+    def uwgs():
+        rng = __import__("random").Random(seeds[7])
+        for _ in range(n_ext):
+            leaves = PALETTE if rng.random() < 0.5 else rng.sample(PALETTE, 3)
+            fam = _family(rng, keys3, rng.choice([1, 2, 2]), leaves, rng.choice([2, 3, 4, 5]), p_mut=0.9)
+            new = fam[1:]
+            old = ref_glb(-1, fam[0], fam[1]) if rng.random() < 0.7 else _mutate(rng, fam[0], keys3, leaves)
+            ctx_ = _fresh(old) if rng.random() < 0.6 else _mutate(rng, old, keys3, leaves)
+            if rng.random() < 0.5:
+                ctx_[rng.choice(keys3)] = copy.deepcopy(rng.choice(leaves))
+            yield {"op": "uwg", "ctx": _with_changed(rng, ctx_, 0.4), "new": [_with_changed(rng, c, 0.3) for c in new],
+                   "old": _with_changed(rng, _fresh(old), 0.15)}
+
+    return _interleave([exh_pairs(), exh_small(), pairs(), multis(), nesteds(), bads(), ustrs(), zips(), groups(), uwgs()])
 
 
 def gen_cases(ctx):
     if ctx.tier == "quick":
-        return _gen(ctx, 2, 2500, 2500, 1500, 400)
-    return _gen(ctx, 3, 60000, 40000, 15000, 3000)
+        return _gen(ctx, 2, 2500, 2500, 1500, 400, 600)
+    return _gen(ctx, 3, 60000, 40000, 15000, 3000, 8000)
 
 
 def search_cases(ctx):
     """failing-input search after a broken proof/correspondence: small exhaustive scope + a larger sample, per extra seed"""
-    return _gen(ctx, 2, 30000, 20000, 8000, 1000)
+    return _gen(ctx, 2, 30000, 20000, 8000, 1000, 4000)
 
 
 # ----------------------------------------------------------------------------------------
@@ -354,6 +475,24 @@ def _paths(v, pre=()):
             out.append(pre + (k,))
             out.extend(_paths(v[k], pre + (k,)))
     return out
+
+
+def _leaf_items(c, pre=()):
+    """(path, value) of every item that is not a non-empty dictionary"""
+    for k, v in c.items():
+        if isinstance(v, dict) and v:
+            yield from _leaf_items(v, pre + (k,))
+        else:
+            yield pre + (k,), v
+
+
+def ref_str_to_dict(s, *value):
+    """reference of str_to_dict for a well-formed call: nested singleton dictionaries"""
+    parts = s.split(".") + list(value)
+    res = parts[-1]
+    for k in reversed(parts[:-1]):
+        res = {k: res}
+    return res
 
 
 def _prunings(a, limit=12):
@@ -439,6 +578,35 @@ def _tok_result(v, enc, idmap):
     return {"l": enc.cls(v), "t": [idmap.get(id(o), -1) for o in _mut_objs(v)]}
 
 
+def _shallow(o):
+    """the items of one dictionary object: keys with the identity of mutable values and the value of scalars"""
+    return sorted((k, ("id", id(v)) if isinstance(v, (dict, list)) else ("v", type(v).__name__, repr(v)))
+                  for k, v in o.items())
+
+
+def _shallow_all(*roots):
+    """id -> (object, its items) for every dictionary reachable from the roots (kept alive by the references)"""
+    out = {}
+
+    def rec(v):
+        if isinstance(v, dict):
+            if id(v) not in out:
+                out[id(v)] = (v, _shallow(v))
+                for x in v.values():
+                    rec(x)
+        elif isinstance(v, list):
+            for x in v:
+                rec(x)
+    for r in roots:
+        rec(r)
+    return out
+
+
+def _written(before, idmap):
+    """identities of the dictionaries that existed before the call and whose own items differ now"""
+    return sorted(idmap[i] for i, (o, sh) in before.items() if _shallow(o) != sh and i in idmap)
+
+
 def _fresh(v):
     """a tree-shaped private copy of a case value (copy.deepcopy would preserve aliasing between sub-dictionaries)"""
     return json.loads(json.dumps(v))
@@ -512,9 +680,21 @@ def _run_impl(case):
                     r[name] = "=a"
             out["lv"].append(r)
         d = _fresh(a)
-        u = _call(lc.update_recursively, d, b)
+        if idmap is not None:
+            # which objects does update_recursively write to, what do d and other consist of afterwards?
+            o = _fresh(b)
+            mp, ctr = {}, [0]
+            _tok_tree(d, enc, ctr, mp)
+            _tok_tree(o, enc, ctr, mp)
+            before = _shallow_all(d, o)
+            u = _call(lc.update_recursively, d, o)
+            out["mut"] = {"d": _tok_result(d, enc, mp), "other": _tok_result(o, enc, mp),
+                          "written": _written(before, mp)}
+            out["upd_changed_other"] = _snap(o) != _snap(case["b"])
+        else:
+            u = _call(lc.update_recursively, d, b)
+            out["upd_changed_other"] = _snap(b) != _snap(case["b"])
         out["upd"] = {"r": d} if "r" in u else u
-        out["upd_changed_other"] = _snap(b) != _snap(case["b"])
         return out
     if op == "multi":
         ds = _fresh(case["ds"])
@@ -559,8 +739,13 @@ def _run_impl(case):
         key = case["key"]
         d, other = _fresh(case["d"]), _fresh(case["other"])
         prev = d.get(key, _ABSENT)
+        enc, mp, ctr = _Enc(case), {}, [0]
+        _tok_tree(d, enc, ctr, mp)
+        _tok_tree(other, enc, ctr, mp)
+        before = _shallow_all(d, other)
         u = _call(lc.update_nested, key, d, other)
-        out = {"d": d, "other": other}
+        out = {"d": d, "other": other,
+               "mut": {"d": _tok_result(d, enc, mp), "other": _tok_result(other, enc, mp), "written": _written(before, mp)}}
         if "e" in u:
             out["e"] = u["e"]
             return out
@@ -577,6 +762,106 @@ def _run_impl(case):
                     break
         out["prev_at"] = at
         return out
+    if op == "ustr":
+        d, other = _fresh(case["d"]), _fresh(case["other"])
+        args = [d, other] + ([_fresh(case["value"])] if "value" in case else [])
+        u = _call(lc.update_recursively, *args)
+        return ({"r": d} if "r" in u else u)
+    if op == "kw":
+        ds = _fresh(case["ds"])
+        kw = {}
+        if case["level"] is not None:
+            kw["level"] = case["level"]
+        if case["unknown"]:
+            kw["levle"] = 1
+        return {"inter": _call(lc.intersection, *ds, **kw), "changed": _snap(ds) != _snap(case["ds"])}
+    if op == "cyc":
+        # other[key][key]... leads back to `other`
+        key, d = case["key"], _fresh(case["d"])
+        nodes = [{"c": i} for i in range(case["cycle"])]
+        for i, nd in enumerate(nodes):
+            nd[key] = nodes[(i + 1) % len(nodes)]
+        u = _call(lc.update_nested, key, d, nodes[0])
+        return {"e": u["e"]} if "e" in u else {"ok": d.get(key) is nodes[0]}
+    if op == "zip":
+        import lena.flow
+        vals = _fresh(case["values"])
+        s0 = _snap(vals)
+
+        class _Src(object):
+            def __init__(self, i, c):
+                self.i, self.c = i, c
+
+            def fill(self, val):
+                pass
+
+            def compute(self):
+                yield (self.i, self.c)
+
+        kw = {"fields": ["f%d" % i for i in range(len(vals))]} if case.get("fields") else {}
+        try:
+            z = lena.flow.Zip([_Src(i, c) for i, c in enumerate(vals)], **kw)
+            z.fill(0)
+            res = list(z.compute())
+        except Exception as e:  # noqa
+            return {"e": exc_name(e), "changed": _snap(vals) != s0}
+        data, context = lena.flow.get_data_context(res[0])
+        zp = context.get("zip")
+        out = {"n_out": len(res), "data": list(data), "changed": _snap(vals) != s0}
+        if isinstance(zp, tuple):
+            out["zip"] = [x for x in zp]
+            out["common"] = {k: v for k, v in context.items() if k != "zip"}
+            # each value is the common part updated with its own part (the point of the construction)
+            recs = []
+            for x in zp:
+                rec = copy.deepcopy(out["common"])
+                u = _call(lc.update_recursively, rec, copy.deepcopy(x))
+                recs.append({"r": rec} if "r" in u else u)
+            out["recs"] = recs
+        else:
+            out["zip"] = None
+            out["common"] = context
+        return out
+    if op == "group":
+        from lena.flow.group_plots import group_plots
+        ctxs = _fresh(case["ctxs"])
+        s0 = _snap(ctxs)
+        u = _call(group_plots, [(i, c) for i, c in enumerate(ctxs)])
+        if "e" in u:
+            return u
+        data, context = u["r"]
+        grp = context.get("group")
+        return {"ctx": {k: v for k, v in context.items() if k != "group"}, "data": list(data),
+                "group_is": isinstance(grp, list) and len(grp) == len(ctxs) and all(x is y for x, y in zip(grp, ctxs)),
+                "shares": _shares({k: v for k, v in context.items() if k != "group"}, *ctxs),
+                "changed": _snap(ctxs) != s0}
+    if op == "split":
+        import lena.core
+        from lena.meta import SetContext
+        ctxs = _fresh(case["ctxs"])
+
+        def branch(c):
+            els = [SetContext(".".join(p), v) for p, v in _leaf_items(c)]
+            els.append(lambda x: x)
+            return tuple(els)
+
+        try:
+            sp = lena.core.Split([branch(c) for c in ctxs])
+            branch_ctxs = [seq._get_context() for seq in sp._seqs]
+            res = sp._get_context()
+        except Exception as e:  # noqa
+            return {"e": exc_name(e)}
+        return {"ctx": res, "branches": branch_ctxs, "again": sp._get_context() == res,
+                "fresh": sp._get_context() is not res}
+    if op == "uwg":
+        from lena.flow.group_plots import _update_with_group
+        ctx_, new, old = _fresh(case["ctx"]), _fresh(case["new"]), _fresh(case["old"])
+        s0 = _snap(new, old)
+        u = _call(_update_with_group, ctx_, new, old)
+        if "e" in u:
+            return u
+        return {"ctx": {k: v for k, v in ctx_.items() if k != "group"}, "group_is": ctx_.get("group") is new,
+                "changed": _snap(new, old) != s0}
     if op == "bad":
         vals = _fresh(case["vals"])
         lv = case["level"]
@@ -596,8 +881,8 @@ def _run_impl(case):
 # ----------------------------------------------------------------------------------------
 # translation to the model's slot vectors
 
-_VALUE_FIELDS = ("a", "b", "d", "other")
-_LIST_FIELDS = ("ds", "vals")
+_VALUE_FIELDS = ("a", "b", "d", "other", "value", "ctx", "old")
+_LIST_FIELDS = ("ds", "vals", "values", "ctxs", "new")
 
 
 def _case_values(case):
@@ -622,10 +907,19 @@ class _Enc:
         keys = set()
         for v in _case_values(case):
             _collect_keys(v, keys)
-        if case["op"] == "nested":
+        op = case["op"]
+        if op == "nested":
             keys.add(case["key"])
+        elif op == "ustr" and isinstance(case["other"], str) and case["other"] != "":
+            keys.update(case["other"].split("."))
+        elif op == "zip":
+            keys.add("zip")
+        elif op in ("group", "uwg"):
+            keys.update(("output", "changed"))
         self.keys = sorted(keys)
         self.classes = []          # representatives of the leaf classes under ==
+        if op in ("group", "uwg"):
+            self.tt, self.ff = self.cls(True), self.cls(False)
         for v in _case_values(case):
             self.val(v)
 
@@ -680,6 +974,10 @@ def model_requests(case):
             ctr = [0]
             ta = _tok_tree(case["a"], e, ctr)
             reqs.append({"op": "tok", "n": n, "a": ta, "b": b, "c": ctr[0], "levels": case["levels"], "falsy": e.falsy()})
+            ctr = [0]
+            td = _tok_tree(case["a"], e, ctr)
+            to = _tok_tree(case["b"], e, ctr)
+            reqs.append({"op": "mutupd", "d": td, "other": to, "c": ctr[0]})
         return reqs
     if op == "multi":
         ds = [e.val(d) for d in case["ds"]]
@@ -688,7 +986,39 @@ def model_requests(case):
             reqs.append({"op": "assoc", "n": n, "level": case["level"], "a": ds[0], "b": ds[1], "c": ds[2]})
         return reqs
     if op == "nested":
-        return [{"op": "nested", "k": e.keys.index(case["key"]), "d": e.val(case["d"]), "other": e.val(case["other"])}]
+        ctr = [0]
+        td = _tok_tree(case["d"], e, ctr)
+        to = _tok_tree(case["other"], e, ctr)
+        return [{"op": "nested", "k": e.keys.index(case["key"]), "d": e.val(case["d"]), "other": e.val(case["other"])},
+                {"op": "mutnest", "k": e.keys.index(case["key"]), "d": td, "other": to, "c": ctr[0]},
+                {"op": "mn", "k": e.keys.index(case["key"]), "v": e.val(case["other"])}]
+    if op == "ustr":
+        other = case["other"]
+        if isinstance(other, str):
+            parts = other.split(".")
+            mo = {"s": {"empty": other == "", "keys": [] if other == "" else [e.keys.index(p_) for p_ in parts],
+                        "last": e.cls(parts[-1])}}
+        else:
+            mo = {"v": e.val(other)}
+        return [{"op": "ustr", "n": n, "d": e.val(case["d"]), "other": mo,
+                 "value": {"v": e.val(case["value"])} if "value" in case else None}]
+    if op == "kw":
+        return [{"op": "kw", "n": n, "level": -1 if case["level"] is None else case["level"],
+                 "ds": [e.val(d) for d in case["ds"]], "unknown": case["unknown"]}]
+    if op == "cyc":
+        return []          # a self-referential value is not a value of the model
+    if op == "zip":
+        return [{"op": "zip", "n": n, "zk": e.keys.index("zip"), "values": [e.val(v) for v in case["values"]],
+                 "falsy": e.falsy()}]
+    if op in ("group", "split"):
+        ks = e.keys + ["output", "changed"] if op == "split" else e.keys
+        return [{"op": "group", "n": n, "o": ks.index("output"), "ch": ks.index("changed"),
+                 "tt": getattr(e, "tt", 0), "ff": getattr(e, "ff", 0), "ctxs": [e.val(c) for c in case["ctxs"]],
+                 "falsy": e.falsy()}]
+    if op == "uwg":
+        return [{"op": "uwg", "n": n, "o": e.keys.index("output"), "ch": e.keys.index("changed"), "tt": e.tt, "ff": e.ff,
+                 "ctx": e.val(case["ctx"]), "new": [e.val(c) for c in case["new"]], "old": e.val(case["old"]),
+                 "falsy": e.falsy()}]
     if op == "bad":
         vals = [e.val(v) for v in case["vals"]]
         reqs = [{"op": "inter", "n": n, "level": case["level"], "ds": vals, "falsy": e.falsy()}]
@@ -710,6 +1040,29 @@ def _expand(r, a):
             if r.get(name) == "=a":
                 r[name] = {"r": a}
     return r
+
+
+def _count_toks(v, enc):
+    ctr = [0]
+    _tok_tree(v, enc, ctr)
+    return ctr[0]
+
+
+def _compare_mut(what, mut, m, other_before):
+    """objects after a mutating call: the tree of d (with identities) as the write-log model predicts it, `other`
+    untouched or as predicted, and every dictionary whose items really changed is in the model's write log"""
+    if "e" in m:
+        if mut["written"]:
+            return f"{what} raised but wrote to the objects {mut['written']}"
+        return None
+    if other_before is not None and mut["other"] != other_before:
+        return f"{what}: `other` consists of {mut['other']} afterwards, before the call of {other_before}"
+    if mut["d"] != m["d"]:
+        return f"{what}: objects of d afterwards: impl {mut['d']} vs write-log model {m['d']}"
+    bad = [t for t in mut["written"] if t not in m["log"]]
+    if bad:
+        return f"{what}: the dictionaries {bad} were changed but are not in the model's write log {m['log']}"
+    return None
 
 
 def _obs(e, r):
@@ -757,6 +1110,10 @@ def compare(case, res, replies):
                     return f"level {lv}: Lean `contained` gives {ml[name]} for {name}, the Python reference {ref[name]}"
             if not (ml["ciab_a"] and ml["ciab_b"]):
                 return f"level {lv}: the model's intersection is not contained in an argument (Lean `contained`): {ml}"
+        if len(replies) > 3 and "mut" in res:
+            msg = _compare_mut("update_recursively", res["mut"], replies[3], _tok_tree(b, e, [_count_toks(a, e)]))
+            if msg:
+                return msg
         da = max([_depth(v) for v in a.values()] + [0])
         if m["da"] != da:
             return f"Lean depthL gives {m['da']}, the Python reference {da}"
@@ -801,6 +1158,25 @@ def compare(case, res, replies):
         return None
     if op == "nested":
         m = replies[0]
+        # the write log: d and the most nested dictionary of `other` (when d has the key), nothing else
+        msg = _compare_mut("update_nested", res["mut"], replies[1], None)
+        if msg:
+            return msg
+        to = _tok_tree(case["other"], e, [_count_toks(case["d"], e)])
+        if "e" not in res:
+            # `other` afterwards is the subtree of d at key (same objects)
+            k = e.keys.index(case["key"])
+            if res["mut"]["other"] != replies[1]["d"]["s"][k]:
+                return f"update_nested: objects of other afterwards: impl {res['mut']['other']} vs model {replies[1]['d']['s'][k]}"
+        elif res["mut"]["other"] != to:
+            return f"update_nested raised but changed other: {res['mut']['other']} (before: {to})"
+        # Lean mnV (get_most_nested_subdict_with) against the Python reference walk
+        cur, ref = case["other"], None
+        while isinstance(cur, dict) and case["key"] in cur:
+            cur = cur[case["key"]]
+        ref = {"r": e.val(cur)} if isinstance(cur, dict) else {"e": "Other:TypeError"}
+        if replies[2] != ref:
+            return f"Lean mnV gives {replies[2]}, the Python reference of the most nested dictionary {ref}"
         if "e" in res or "e" in m:
             if res.get("e") != m.get("e"):
                 return f"update_nested: impl {res.get('e', 'returns')} vs model {m}"
@@ -810,6 +1186,59 @@ def compare(case, res, replies):
             return f"update_nested: impl d = {got} vs model {m['r']}"
         if case["key"] in case["d"] and res["prev_at"] != m["depth"] + 1:
             return f"update_nested: previous d[key] found at depth {res['prev_at']}, model nestDepth+1 = {m['depth'] + 1}"
+        return None
+    if op == "ustr":
+        got = _obs(e, res)
+        if got != replies[0]:
+            return (f"update_recursively({case['d']}, {case['other']!r}{', ' + repr(case['value']) if 'value' in case else ''}): "
+                    f"impl {got} vs model {replies[0]}")
+        return None
+    if op == "kw":
+        got = _obs(e, res["inter"])
+        if got != replies[0]:
+            return f"intersection with keyword arguments: impl {got} vs model {replies[0]}"
+        return None
+    if op == "cyc":
+        return None
+    if op == "zip":
+        m = replies[0]
+        if "e" in res or "e" in m:
+            if res.get("e") != m.get("e"):
+                return f"Zip._create_context({case['values']}): impl {res.get('e', 'returns')} vs model {m}"
+            return None
+        got = {"common": e.val(res["common"]), "zip": None if res["zip"] is None else [e.val(x) for x in res["zip"]]}
+        if got != {"common": m["common"], "zip": m["zip"]}:
+            return f"Zip._create_context({case['values']}): impl {got} vs model {m}"
+        if "recs" in res and [_obs(e, r) for r in res["recs"]] != [{"r": x} for x in m["recs"]]:
+            return f"Zip: common part updated with each value's part: impl {res['recs']} vs model {m['recs']}"
+        if m["recs"] != [e.val(v) for v in case["values"]]:
+            return f"model: Zip parts do not reconstruct the values: {m['recs']}"
+        return None
+    if op == "group":
+        m = replies[0]
+        if "e" in res:
+            return f"group_plots raised {res['e']} (model: {m})"
+        if e.val(res["ctx"]) != m["ctx"]:
+            return f"group_plots({case['ctxs']}): context impl {e.val(res['ctx'])} vs model {m['ctx']}"
+        if m["recs"] != [e.val(c) for c in case["ctxs"]]:
+            return f"model: intersection + difference do not reconstruct the members: {m['recs']}"
+        return None
+    if op == "split":
+        m = replies[0]
+        if "e" in res:
+            return f"Split._get_context raised {res['e']}"
+        if [e.val(c) for c in res["branches"]] != [e.val(c) for c in case["ctxs"]]:
+            return f"harness: the branches do not carry the intended static contexts: {res['branches']}"
+        if e.val(res["ctx"]) != m["inter"]:
+            return f"Split._get_context over {case['ctxs']}: impl {e.val(res['ctx'])} vs model {m['inter']}"
+        return None
+    if op == "uwg":
+        m = replies[0]
+        if "e" in res:
+            return f"_update_with_group raised {res['e']} (model: {m})"
+        if e.val(res["ctx"]) != m["ctx"]:
+            return (f"_update_with_group({case['ctx']}, {case['new']}, {case['old']}): context impl {e.val(res['ctx'])} "
+                    f"vs model {m['ctx']}")
         return None
     if op == "bad":
         names = ["inter", "diff", "upd"]
@@ -872,6 +1301,8 @@ _TAGS = [
     ("update-not-containing", r"does not contain other"),
     ("update-item-lost", r"is not overwritten by other"),
     ("update-nested", r"^update_nested"),
+    ("zip-context", r"^Zip\._create_context"),
+    ("group-context", r"^group_plots|^Split\._get_context|^_update_with_group"),
     ("exception", r"raised"),
 ]
 
@@ -993,6 +1424,105 @@ def _oracle(case, res):
             return (f"update_nested({key!r}, {d0}, {o0}): the previous d[{key!r}] = {d0[key]!r} is not reachable "
                     f"under the new one by following {key!r}: d = {d1}")
         return None
+    if op == "ustr":
+        d0, other = case["d"], case["other"]
+        if not isinstance(d0, dict):
+            return None
+        if isinstance(other, str):
+            # (which strings are malformed is C08's business: only well-formed calls are judged here)
+            if other == "" or ("value" not in case and "." not in other):
+                return None
+            o = ref_str_to_dict(other, *([case["value"]] if "value" in case else []))
+            what = f"update_recursively({d0}, {other!r}{', ' + repr(case['value']) if 'value' in case else ''})"
+        elif isinstance(other, dict) and "value" not in case:
+            o, what = other, f"update_recursively({d0}, {other})"
+        else:
+            return None
+        if "e" in res:
+            return f"{what} raised {res['e']}"
+        r = res["r"]
+        if not contained(-1, o, r):
+            return f"{what} gives {r}, which does not contain other = {o}"
+        for p in _paths(d0):
+            if untouched(o, p) and get_path(r, p) != get_path(d0, p):
+                after = get_path(r, p)
+                return (f"{what} gives {r}: the item at {'.'.join(p)} is not overwritten by other but changed from "
+                        f"{get_path(d0, p)!r} to {'nothing (absent)' if after is _NOPATH else repr(after)}")
+        return None
+    if op == "kw":
+        if res["changed"]:
+            return f"intersection changed an argument: {case['ds']}"
+        return None
+    if op == "cyc":
+        return None
+    if op == "zip":
+        vals = case["values"]
+        if res.get("changed"):
+            return f"Zip._create_context changed a context of {vals}"
+        if "e" in res:
+            return None       # update_nested with a tuple as `other`: outside the statement (see notes/C07_defect_1.md)
+        common, zp = res["common"], res["zip"]
+        what = f"Zip._create_context({vals})"
+        if zp is None:
+            for v in vals:
+                if ref_diff(1, v, common):
+                    return f"{what} = {common} without zip, but {v} has items not contained in it"
+            return _oracle_inter(1, vals, common, f"{what}: common part")
+        msg = _oracle_inter(1, vals, common, f"{what}: common part")
+        if msg:
+            return msg
+        for v, x, rec in zip(vals, zp, res["recs"]):
+            if x != ref_diff(1, v, common):
+                return f"{what}: the part {x} of {v} is not its difference from the common part {common}"
+            if "e" in rec or rec["r"] != v:
+                return f"level 1: updating the intersection {common} with the difference {x} gives {rec}, not {v} ({what})"
+        return None
+    if op == "group":
+        ctxs = case["ctxs"]
+        if "e" in res:
+            return f"group_plots raised {res['e']} for the contexts {ctxs}"
+        if res["changed"]:
+            return f"group_plots changed a context of {ctxs}"
+        if res["shares"]:
+            return f"group_plots({ctxs}): the common context shares a mutable object with a member (intersection is not a deep copy)"
+        ctx_ = res["ctx"]
+        rest = {k: v for k, v in ctx_.items() if k != "output"}
+        for c in ctxs:
+            if not contained(-1, rest, c):
+                return f"group_plots({ctxs}): common context {ctx_}: {rest} is not contained in the member {c}"
+        if ctxs:
+            glb = ctxs[0]
+            for c in ctxs[1:]:
+                glb = ref_glb(-1, glb, c)
+            if not contained(-1, {k: v for k, v in glb.items() if k != "output"}, rest):
+                return f"group_plots({ctxs}): common context {ctx_} is not the greatest common part {glb}"
+        return None
+    if op == "split":
+        if "e" in res:
+            return f"Split._get_context raised {res['e']} for branch contexts {case['ctxs']}"
+        if not res["again"]:
+            return f"Split._get_context gives different answers for {case['ctxs']}"
+        if not case["ctxs"]:
+            return None if res["ctx"] == {} else f"Split._get_context of no branch = {res['ctx']}"
+        return _oracle_inter(-1, case["ctxs"], res["ctx"], f"Split._get_context over branches {case['ctxs']}")
+    if op == "uwg":
+        if "e" in res:
+            return f"_update_with_group raised {res['e']} for {case}"
+        if res["changed"]:
+            return f"_update_with_group changed the new group contexts or the old intersection ({case})"
+        new = case["new"]
+        glb = new[0]
+        for c in new[1:]:
+            glb = ref_glb(-1, glb, c)
+        upd_ = ref_diff(-1, glb, case["old"])
+        what = f"_update_with_group({case['ctx']}, {new}, {case['old']})"
+        if not contained(-1, upd_, res["ctx"]):
+            return f"{what} gives {res['ctx']}, which does not contain the difference {upd_} of the intersections"
+        for p in _paths(case["ctx"]):
+            if p[0] != "output" and untouched(upd_, p) and get_path(res["ctx"], p) != get_path(case["ctx"], p):
+                return (f"{what} gives {res['ctx']}: the item at {'.'.join(p)} is not overwritten by other but changed "
+                        f"from {get_path(case['ctx'], p)!r}")
+        return None
     if op == "bad":
         # non-dictionary arguments are outside the property's statement; only "arguments unchanged" applies
         if res["changed"] and "r" in res["inter"]:
@@ -1012,6 +1542,12 @@ def nontrivial(case, res):
         return len(ds) >= 2 and all(ds) and any(d != ds[0] for d in ds)
     if op == "nested":
         return case["key"] in case["d"]
+    if op == "ustr":
+        return isinstance(case["d"], dict) and bool(case["d"]) and isinstance(case["other"], (str, dict)) and bool(case["other"])
+    for name in ("values", "ctxs", "new"):
+        if name in case:
+            ds = case[name]
+            return len(ds) >= 2 and all(ds) and any(d != ds[0] for d in ds)
     return True
 
 
@@ -1048,6 +1584,17 @@ def classify(case, res):
                                                           else f"depth={res['prev_at']}"))]
     if op == "bad":
         return ["bad:inter=" + res["inter"].get("e", "ok")]
+    if op == "ustr":
+        o = case["other"]
+        kind = ("str" if isinstance(o, str) else "dict" if isinstance(o, dict) else "other") + ("+value" if "value" in case else "")
+        return [f"ustr:{kind}:" + (res["e"] if "e" in res else "ok")]
+    if op == "kw":
+        return ["kw:" + res["inter"].get("e", "ok")]
+    if op == "zip":
+        return ["zip:" + (res["e"] if "e" in res else ("all-common" if res["zip"] is None else "with-parts")),
+                f"zip:n={len(case['values'])}"]
+    if op in ("group", "split", "uwg", "cyc"):
+        return [op + ":" + (res["e"] if "e" in res else "ok")]
     return [op]
 
 
@@ -1092,6 +1639,25 @@ def shrink(case):
         for name in ("d", "other"):
             for s in _sub_values(case[name]):
                 yield dict(case, **{name: s})
+    elif op in ("zip", "group", "split", "uwg", "kw"):
+        name = {"zip": "values", "group": "ctxs", "split": "ctxs", "uwg": "new", "kw": "ds"}[op]
+        ds = case[name]
+        for i in range(len(ds)):
+            if len(ds) > 1:
+                yield dict(case, **{name: ds[:i] + ds[i + 1:]})
+            for s_ in _sub_values(ds[i]):
+                yield dict(case, **{name: ds[:i] + [s_] + ds[i + 1:]})
+        for extra in ("ctx", "old"):
+            if extra in case:
+                for s_ in _sub_values(case[extra]):
+                    yield dict(case, **{extra: s_})
+    elif op == "ustr":
+        for name in ("d", "other", "value"):
+            if isinstance(case.get(name), dict):
+                for s_ in _sub_values(case[name]):
+                    yield dict(case, **{name: s_})
+        if isinstance(case["other"], str) and "." in case["other"]:
+            yield dict(case, other=case["other"].rsplit(".", 1)[0])
     elif op == "bad":
         vals = case["vals"]
         for i in range(len(vals)):
